@@ -1284,6 +1284,36 @@ class Explorer:
         self._run(st, target, fr, cont)
         return True
 
+    def fn_trait_call(self, st, fr, b, t, cont):
+        """`f(x)` where f is a generic `impl Fn` parameter that holds a known closure / fn item of this crate (a helper such as
+        `map_points(self, f)` expanded into its caller): the callable is applied"""
+        from facts import callee_name
+        if not self.inline or t.get('target') is None or fr.depth >= 6 or len(t['args']) != 2:
+            return False
+        if not re.search(r'ops::(Fn|FnMut|FnOnce)::(call|call_mut|call_once)$', callee_name(t)):
+            return False
+        v = strip_upd(self.operand(st, fr, t['args'][0]))
+        for _ in range(4):
+            if v[0] == 'ref' and v[1][0][0] == 'loc':
+                v = strip_upd(self.load(st, fr, v[1]))
+            elif v[0] == 'refval':
+                v = strip_upd(v[1])
+            else:
+                break
+        cal = self._callable(v)
+        if cal is None or cal[0] not in ('closure', 'fnitem'):
+            return False
+        tup = strip_upd(self.operand(st, fr, t['args'][1]))
+        if not (tup[0] == 'agg' and tup[1] == 'tuple'):
+            return False
+        dest, target = t['dest'], t['target']
+
+        def after(s3, r):
+            self.store(s3, self.loc_of(s3, fr, dest), r)
+            self._run(s3, target, fr, cont)
+        self._apply(st, fr, b, t, cal, tuple(tup[4]), after)
+        return True
+
     def option_try(self, st, fr, t):
         """`opt?`: <Option<T> as Try>::branch(opt) -> the option value, else None"""
         from facts import callee_name
@@ -1330,7 +1360,7 @@ class Explorer:
         """a local, loop-free helper with branches that no rule knows by name: expanded path by path, so that extracting a
         helper function out of an anchor does not change what the rules see"""
         from facts import callee_name
-        if not self.inline or fr.depth >= (4 if self.expand else 3):
+        if not self.inline or fr.depth >= (6 if self.expand else 3):
             return None
         name = callee_name(t)
         cb = self.facts.bodies.get(name)
@@ -1400,6 +1430,8 @@ class Explorer:
             elif k == 'call' and self.chain_next(st, fr, b, t, cont):
                 return
             elif k == 'call' and self.pairs_next(st, fr, b, t, cont):
+                return
+            elif k == 'call' and self.fn_trait_call(st, fr, b, t, cont):
                 return
             elif k == 'call' and self.std_model(st, fr, b, t, cont):
                 return
